@@ -205,6 +205,52 @@ pub fn run(ctx: &Ctx) {
     }, check_decrypt_any);
     ctx.cold("cold_start_encrypt", "mode encryption (then decryption) as the first library operation of a fresh process (4 modes x 3 lengths)", cold_cases, check_valid);
 
+    let huge: Vec<usize> = ctx.tier.pick(vec![(1usize << 16) + 3], vec![(1 << 20) + 3, (1 << 22) + 16, (1 << 24) + 1]);
+    ctx.listed("huge_messages", "each mode on a few very large inputs (2^16+3 bytes in the quick tier; up to 2^24+1 in the thorough tier), IV near a carry", move || {
+        let mut v = Vec::new();
+        for len in huge.iter() {
+            for mode in 0..4u8 {
+                let mut iv = expand_bytes(*len as u64 ^ 0x77, 16);
+                iv[12..].copy_from_slice(&[0xFF, 0xFF, 0xFF, 0x00]);
+                v.push(MC { mode, key: Hex(expand_bytes(*len as u64 ^ 0x78, 16)), iv: Hex(iv), data: Hex(expand_bytes(*len as u64, *len)) });
+            }
+        }
+        v
+    }, check_valid);
+
+    ctx.exhaustive(
+        "cbc_valid_ciphertext_plus_or_minus_bytes",
+        "valid CBC ciphertexts (reference-made, plaintexts of 0..=47 bytes incl. ones whose block-final bytes are 0x01..0x10) with 1..=15 bytes appended, and cut by 1..=15 bytes inside the last block: neither length is a multiple of 16, so both must be rejected; the untouched ciphertext must decrypt",
+        || {
+            let mut v = Vec::new();
+            for plen in 0..=47usize {
+                for variant in 0..2u64 {
+                    let s = 0xcbc7_0000 | (plen as u64) << 4 | variant;
+                    let (key, iv) = (arr16(&expand_bytes(s ^ 1, 16)), arr16(&expand_bytes(s ^ 2, 16)));
+                    let mut pt = expand_bytes(s ^ 3, plen);
+                    if variant == 1 {
+                        // make every block-final plaintext byte a legal padding value, so that a decryptor that drops the ragged tail sees valid padding
+                        for i in (15..pt.len()).step_by(16) {
+                            pt[i] = 1 + (i as u8 % 16);
+                        }
+                    }
+                    let ct = rsm4::encrypt(Mode::Cbc, &key, &iv, &pt);
+                    v.push(MC { mode: 0, key: Hex(key.to_vec()), iv: Hex(iv.to_vec()), data: Hex(ct.clone()) });
+                    for extra in [1usize, 7, 15] {
+                        let mut longer = ct.clone();
+                        longer.extend_from_slice(&expand_bytes(s ^ 4, extra));
+                        v.push(MC { mode: 0, key: Hex(key.to_vec()), iv: Hex(iv.to_vec()), data: Hex(longer) });
+                        if ct.len() > 16 {
+                            v.push(MC { mode: 0, key: Hex(key.to_vec()), iv: Hex(iv.to_vec()), data: Hex(ct[..ct.len() - extra].to_vec()) });
+                        }
+                    }
+                }
+            }
+            v
+        },
+        check_decrypt_any,
+    );
+
     ctx.exhaustive(
         "carry_ivs",
         "4 modes x IVs with t = 1..16 trailing 0xFF bytes x data of 49..=96 bytes step 47 (>= 4 counter values)",
